@@ -1,0 +1,24 @@
+//go:build !verif
+
+// Package verifhook provides scheduling and observation hooks for the external
+// verification harness. Without the "verif" build tag every hook is an empty
+// function and Enabled is a false constant, so the calls compile to nothing.
+package verifhook
+
+// Enabled reports whether the hooks are compiled in.
+const Enabled = false
+
+// Gate parks a worker before it runs its next queued task.
+func Gate(kind, id string) {}
+
+// Done reports that a worker finished a task.
+func Done(kind, id string) {}
+
+// Note reports a queue operation.
+func Note(kind, id string) {}
+
+// Go starts f as a goroutine.
+func Go(label string, f func()) { go f() }
+
+// Site marks that a code site was reached.
+func Site(id, cid, rid string) {}
